@@ -296,7 +296,7 @@ class C14(Check):
             'for multi-label, ALL sequences over the 8 subsets (incl. the empty set) of a 3-label universe (lists of str / int, tuples); label_type in '
             '{None,c,r,m} where meaningful for the label kind; delivery in {(X,Y), source of (x,y) pairs, dense rows + label_col index at every position, '
             'HeadRows dense rows by header / index, sparse rows with str / int label key, sparse rows that omit a 0 label, HeadRows sparse rows by header / '
-            'index, positional and source= call styles, CSV (with/without header, by index / header), ARFF dense and sparse (nominal / numeric / string '
+            'index, PRE-LABELLED sources (dense / headed / sparse rows, ARFF dense+sparse and CSV reader pipelines joined with LabelRows(label, declared type) by the caller, simulation built from the source only) x every declared type in {None,c,r,m} x every requested label_type in {None,c,r,m} meaningful for the label kind (take in {None,2}), positional and source= call styles, CSV (with/without header, by index / header), ARFF dense and sparse (nominal / numeric / string '
             'label attribute, by header / index, every position), LibSVM, Manik (single and comma-separated labels)}; take in {None,0,1,2,N,N+1} for every '
             'source delivery; enumerated exhaustively, fewest examples first. Every case is read twice from fresh objects (SupervisedSimulation.read and '
             'Environments.from_supervised(...)[0].read). A case is non-trivial when the real code produced at least one interaction (which is then compared '
@@ -306,6 +306,7 @@ class C14(Check):
         'Categorical labels: the declared levels count as the labels of the data, i.e. the action set must contain every distinct label and only declared levels (sparse ARFF: plus the level "0" that the ARFF reader adds on purpose)',
         'with take the action set may be the distinct labels of the sample or of the whole data (the statement does not say which)',
         'label_type=None: how the type is inferred is not constrained; the interactions must satisfy the complete reference model of one admissible type (numeric: regression or classification; [l]: classification or multi-label; str/Categorical/tuple: classification)',
+        'pre-labelled sources: an explicit label_type decides, without one the type declared by the rows does, without both the inference rule above applies; a declared/requested type that is meaningless for the label kind is outside the alphabet',
         'multi-label and regression: the offered action list is not constrained (the statement defines it for classification only); multi-label rewards are called with lists of distinct labels only, never with a bare label; S = Y = {} (0/0) is not evaluated',
         'label sets are sequences (list/tuple) of distinct labels; python set objects and duplicated labels are outside the alphabet',
         'an empty example set (or take=0) may be rejected with an exception instead of giving zero interactions',
@@ -321,7 +322,7 @@ class C14(Check):
                   'forms incl. real CSV/ARFF/LibSVM/Manik text x every label position x label types x take is turned into interactions by the real code and '
                   'compared with the statement; exhaustive below the bound, so the smallest failing example set of each failure class is found with certainty.')
     LEVEL_NOTE = 'small-scope hypothesis: <=5 examples, <=3 distinct labels, <=2 features, one value per type; plain serialisations only; label-type inference unconstrained'
-    MIN_NONTRIVIAL = {'quick': 70000, 'thorough': 700000}
+    MIN_NONTRIVIAL = {'quick': 90000, 'thorough': 800000}
     CASE_TIMEOUT = 30
 
     # -------------------------------------------------------------- enumeration
@@ -435,6 +436,16 @@ class C14(Check):
             else:
                 comp, mode, _ = key.split('|', 2)
                 key = f'{comp}|{mode}|only when take is given'
+        decl, lt = case.get('decl', NA), case['lt']
+        if decl not in (NA, None) and lt is not None and decl != lt:
+            # classify: the same case with a source that declares the requested type decides whether the precedence between
+            # the declared and the requested label type is at fault
+            base = dict(case, decl=lt)
+            rep0, _, _ = self._eval(base)
+            if rep0:
+                key, what = rep0[0]; case = base
+            else:
+                key = key.split('|', 1)[0] + '|the explicit label_type does not decide (interactions follow the type the source declares)|source declares another type than label_type'
         acc.violation(key, what, case)
 
     def _eval(self, case):
@@ -528,12 +539,6 @@ class C14(Check):
             rec.violation(K('context is not the features of the example'), f'interaction {k}: context {val!r} ({form}), expected {e!r}: {case}'); return
         # ---- rewards and actions
         lfeat = f'{GROUP.get(lab, lab)} labels as ' + {'c': 'classification', 'm': 'multi-label', 'r': 'regression'}[kind]
-        dsuffix = ''
-        if 'decl' in case:
-            decl = case['decl']
-            dsuffix = ('; source declares no type' if decl is None else '; source declares a type, no label_type' if lt is None else
-                       '; source declares the label_type' if decl == lt else '; source declares another type than label_type')
-            lfeat += dsuffix
         universe = UNIVERSE[lab]
         if kind == 'c':
             delist = lambda l: l[0] if isinstance(l, list) else l
@@ -619,9 +624,9 @@ class C14(Check):
                     try:
                         v = r(a)
                     except Exception as e:   # noqa
-                        rec.violation(K(f'reward raises {type(e).__name__}', f'label_type=r label delivered as {form}{dsuffix}'), f'interaction {k}: {srepr(r)}({a!r}): {e!r}: {case}'); return
+                        rec.violation(K(f'reward raises {type(e).__name__}', f'label_type=r label delivered as {form}'), f'interaction {k}: {srepr(r)}({a!r}): {e!r}: {case}'); return
                     if not isinstance(v, (int, float)) or abs(v + abs(a - y)) > 1e-9:
-                        rec.violation(K('reward is not the negative absolute error', f'label_type=r label delivered as {form}{dsuffix}'), f'interaction {k}: label {y!r}, rewards({a!r}) = {v!r}: {case}'); return
+                        rec.violation(K('reward is not the negative absolute error', f'label_type=r label delivered as {form}'), f'interaction {k}: label {y!r}, rewards({a!r}) = {v!r}: {case}'); return
                 rec.checked += 1
         else:
             raise ValueError(kind)
